@@ -654,6 +654,12 @@ DecompressJpegRectBPP(rfbClient* client, int x, int y, int w, int h)
   flags = 0;
   pixelSize = 3;
   pitch = w * pixelSize;
+  /* the image is decompressed into client->buffer first */
+  if ((size_t)w * h * pixelSize > RFB_BUFFER_SIZE) {
+    rfbClientLog("Tight encoding: JPEG rectangle too large.\n");
+    free(compressedData);
+    return FALSE;
+  }
   dst = (uint8_t *)client->buffer;
 #else
   if (client->format.bigEndian) flags |= TJ_ALPHAFIRST;
